@@ -80,6 +80,15 @@ def check_one(case, ctx, deep):
                 form = rnd.choice(['list', 'tuple', 'set', 'frozenset', 'dict', 'keys'] + (['iter'] if side == 'o' else []))
                 got = ctx.call('context[]', q, context.__getitem__, tuple(labels))
                 ctx.check(got == want, 'context[]', q, lambda: f'context[{labels}] = {got!r}, want {want!r}')
+                if form == 'iter':
+                    # an explicit refusal of one-shot iterators (TypeError) is compatible with "collection"; a wrong answer is not
+                    try:
+                        context[gen.as_form(form, seq)]
+                    except TypeError:
+                        ctx.count('iterator_lookup_refused')
+                        form = 'list'
+                    except Exception:  # noqa: BLE001 - judged by the call below
+                        pass
                 got2 = ctx.call('context[](form)', q, context.__getitem__, gen.as_form(form, seq))
                 ctx.check(got2 == want, 'context[](form)', q, lambda: f'context[{seq}] ({form}) = {got2!r}, want {want!r}')
                 # independent of the closure formula: formal concept, contains query, least
